@@ -39,8 +39,21 @@ fn main() {
         cfg.activity = Some((it.next().unwrap(), it.next().unwrap()));
     }
     let repeat = a.contains_key("repeat");
+    let twice = a.contains_key("twice");
     let emit = |c: &Case| {
         wd.begin(c.id);
+        if twice {
+            // two solves on one solver (synchronous runtime): {"case", "obs", "p2", "obs2"}
+            let (o1, second) = run_case_twice(c, &cfg);
+            wd.end();
+            let mut so = so.lock();
+            let (p2, o2) = match second {
+                Some((p, o)) => (Some(p), Some(o)),
+                None => (None, None),
+            };
+            let _ = writeln!(so, "{}", serde_json::json!({"case": c, "obs": o1, "p2": p2, "obs2": o2}));
+            return;
+        }
         let obs = run_case(c, &cfg);
         // a second fresh solver in the same process must behave identically
         let same = if repeat {
